@@ -395,7 +395,8 @@ func Project(db *sql.DB) (State, error) {
 				c.Type = typ
 			}
 			if dflt.Valid {
-				if dflt.String == "'1'" {
+				// '1' and 1 are the same default for a column with INTEGER affinity
+				if dflt.String == "'1'" || dflt.String == "1" && c.Type == "INT" {
 					c.Dflt = "d1"
 				} else {
 					c.Dflt = dflt.String
